@@ -58,6 +58,19 @@ chk("C04", "exploration", "DESIGN.md 5/C04",
     "Legality by verif/sim/rules. Scheduling freedom exists at the gate and the simhook points (DESIGN.md 2.3); the four main() wirings are repeated in the harness. Whether 'go infinite' may be answered before 'stop' (book move, depth limit) is left open by the sentence and only counted.",
     "deterministic simulation: synctest bubble, seeded scheduler over gate/hook points, simulated clock, obligation tracker")
 
+chk("C16", "exploration", "DESIGN.md 5/C16",
+    "Adversarial UCI sessions in the bubble: position/go/ucinewgame/setoption/stop/isready/quit/EOF and torn, garbage and duplicated lines arrive while searches are parked mid-tree and forwarders, timers and Halt callers are parked at their hooks; the seeded controller explores their relative order, the clock and consumer stalls. Judged: no panic in any goroutine (worker process death, minimised by subprocess replay), no deadlock at a quiescent point, readyok per isready, every bestmove attributable to a go that was open when it was written and legal in that go's position (positions alternate the side to move, so a stale answer is illegal by construction), at most one per go, clean shutdown after quit/EOF, no exit without cause.",
+    "A command takes effect when the loop takes it. Exit on ill-formed input is accepted. Orders inside seekerror/stdlib helpers cannot be hooked. Data races as such are the -race tier's business (a serialising scheduler hides them).",
+    "deterministic simulation: synctest bubble, seeded scheduler over gate/hook points, fault injection (EOF/quit mid-search, supersede, torn lines, stalls, clock jumps)")
+chk("C10", "exploration", "DESIGN.md 5/C10",
+    "Sequences of position/ucinewgame commands (unrelated, extended by 1..4 moves, repeated verbatim, shortened, prefix traps) through the real driver, with searches left parked mid-tree in between; at the quiescent point after each command the engine's position is compared with the model game of that command alone, and full FEN, ply, clocks, result and the per-ply results of a probe continuation (reversible moves revisiting earlier positions) with a fresh engine on which the line was set up from scratch.",
+    "Only well-formed commands with legal moves. Clock values vs the FEN standard are C14's; the reference for clocks and repetition history here is the same engine code set up from scratch (the property's second sentence).",
+    "deterministic simulation: seeded command histories through the real driver in a bubble, differential + model oracle per command")
+chk("C15", "exploration", "DESIGN.md 5/C15",
+    "Iterative.Launch driven directly in the bubble: gated search of tape-drawn configuration, depth limits, real tables, TimeControl on the simulated clock, 0..2 halter tasks at tape-chosen instants (before the first evaluation, between iterations, after the end, twice, racing the hard timer), a reader that keeps up or lags. Judged: increasing/consecutive depths, each iteration equal to a direct fixed-depth search, natural end exactly at limit or forced mate, Halt() never before depth 1 nor shallower than already reported and equal to a direct search, hard <= clock, termination after halt/limit/hard timer once everything runs.",
+    "Iteration contents compared with table off only. Soft limit may stop deepening after any iteration under a time control.",
+    "deterministic simulation: synctest bubble, simulated clock, seeded halt instants and gate credits")
+
 def main():
     props = [json.loads(l) for l in open('/verif/properties.jsonl')]
     ids = [p['id'] for p in props]
